@@ -61,6 +61,7 @@ type Knobs struct {
 	PInvokeAll  int // Invoke parameter drawn from visible keys
 	PInfo       int
 	PInfoShare  int // an Info struct is one of two shared slots instead of a fresh struct
+	PNilOptArg  int // an op gets a nil / empty argument to an option constructor (FillXInfo(nil), WithXCallback(nil), As())
 	PCallback   int
 	PDefer      int
 	PRecover    int
@@ -744,7 +745,17 @@ func (g *gen) genProvide(s int) Op {
 		o.CB = true
 	}
 	op := Op{K: OpProvide, S: s, F: f}
-	if o.Name != "" || o.Group != "" || len(o.As) > 0 || o.Export || o.Info || o.CB {
+	if g.pct(g.k.PNilOptArg, "niloptarg") {
+		switch g.pick(3, "nilopt") {
+		case 0:
+			o.InfoNil = true
+		case 1:
+			o.CBNil = true
+		default:
+			o.AsEmpty = len(o.As) == 0
+		}
+	}
+	if o.Name != "" || o.Group != "" || len(o.As) > 0 || o.Export || o.Info || o.CB || o.InfoNil || o.CBNil || o.AsEmpty {
 		op.O = o
 	}
 	if g.pct(g.k.PReencode, "reenc") {
@@ -880,7 +891,14 @@ func (g *gen) genDecorate(s int) (Op, bool) {
 	if g.pct(g.k.PCallback, "cb") {
 		o.CB = true
 	}
-	if o.Info || o.CB {
+	if g.pct(g.k.PNilOptArg, "niloptarg") {
+		if g.pct(50, "nilopt") {
+			o.InfoNil = true
+		} else {
+			o.CBNil = true
+		}
+	}
+	if o.Info || o.CB || o.InfoNil || o.CBNil {
 		op.O = o
 	}
 	mf := NewMFn(f, nil, KDeco, s)
@@ -968,6 +986,12 @@ func (g *gen) genInvoke(s int) Op {
 	if g.pct(g.k.PInfo, "info") {
 		op.O = &Opts{Info: true, InfoSlot: g.infoSlot()}
 	}
+	if g.pct(g.k.PNilOptArg, "niloptarg") {
+		if op.O == nil {
+			op.O = &Opts{}
+		}
+		op.O.InfoNil = true
+	}
 	return op
 }
 
@@ -987,7 +1011,7 @@ func (g *gen) setAlt(opIdx int, f *Fn, o *Opts) {
 	if g.c.Variant.Alt == nil {
 		g.c.Variant.Alt = map[int]*AltOp{}
 	}
-	if o != nil && o.Name == "" && o.Group == "" && len(o.As) == 0 && !o.Export && !o.Info && !o.CB {
+	if o != nil && o.Name == "" && o.Group == "" && len(o.As) == 0 && !o.Export && !o.Info && !o.CB && !o.InfoNil && !o.CBNil && !o.AsEmpty {
 		o = nil
 	}
 	g.c.Variant.Alt[opIdx] = &AltOp{F: f, O: o}
